@@ -1,12 +1,23 @@
-//! harness-core: correspondence + oracle runs for properties that need `elvis-core` only.
+//! hcore: correspondence + oracle runs; sub-command `cXX` or `cXX-<variant>` selects the module.
 mod props;
 use hcommon::{install_panic_hook, parse_args};
 
 fn main() {
     install_panic_hook();
     let args = parse_args();
-    match args.prop.as_str() {
+    let key = args.prop.split('-').next().unwrap_or("").to_string();
+    match key.as_str() {
+        "c01" => props::c01::run(&args),
+        "c03" => props::c03::run(&args),
         "c07" => props::c07::run(&args),
+        "c08" => props::c08::run(&args),
+        "c09" => props::c09::run(&args),
+        "c10" => props::c10::run(&args),
+        "c11" => props::c11::run(&args),
+        "c12" => props::c12::run(&args),
+        "c14" => props::c14::run(&args),
+        "c17" => props::c17::run(&args),
+        "c18" => props::c18::run(&args),
         p => {
             eprintln!("hcore: unknown property {}", p);
             std::process::exit(2);
